@@ -38,9 +38,9 @@ func runC19(c *Ctx) {
 	c.Rule("C19-R2", "guarded-by: feed and subscription state is accessed only with its lock held (here or at every call site)", func() {
 		n := c.GuardedBy("C19-R2", guardSpec{Type: "aqua/event:Feed", Lock: "sendLock", Fields: []string{"sendCases"},
 			Exempt: map[string]string{"(*aqua/event.Feed).init": "runs once under sync.Once before the token exists"}}, cfg)
-		n += c.GuardedBy("C19-R2", guardSpec{Type: "aqua/event:Feed", Lock: "mu", Fields: []string{"inbox", "etype"}}, cfg)
-		n += c.GuardedBy("C19-R2", guardSpec{Type: "aqua/event:SubscriptionScope", Lock: "mu", Fields: []string{"subs", "closed"}}, cfg)
-		n += c.GuardedBy("C19-R2", guardSpec{Type: "aqua/event:funcSub", Lock: "mu", Fields: []string{"unsubscribed"}}, cfg)
+		n += c.GuardedBy("C19-R2", guardSpec{Type: "aqua/event:Feed", Lock: "mu", WriteExcl: true, Fields: []string{"inbox", "etype"}}, cfg)
+		n += c.GuardedBy("C19-R2", guardSpec{Type: "aqua/event:SubscriptionScope", Lock: "mu", WriteExcl: true, Fields: []string{"subs", "closed"}}, cfg)
+		n += c.GuardedBy("C19-R2", guardSpec{Type: "aqua/event:funcSub", Lock: "mu", WriteExcl: true, Fields: []string{"unsubscribed"}}, cfg)
 		c.Extra["guarded_accesses"] = n
 	})
 	c.Min("C19-R2", 20)
